@@ -5,6 +5,7 @@ import (
 	"errors"
 	"fmt"
 	"go/format"
+	"html"
 	"io"
 	"strings"
 	"unicode"
@@ -805,7 +806,22 @@ func (ca ConstantAttribute) String() string {
 	if ca.SingleQuote {
 		quote = `'`
 	}
-	return ca.Name + `=` + quote + ca.Value + quote
+	return ca.Name + `=` + quote + escapeConstantAttributeValue(ca.Value, quote) + quote
+}
+
+// escapeConstantAttributeValue returns the source text for an attribute value.
+// The parser stores the value HTML-unescaped, so it has to be escaped again if
+// writing it verbatim would not parse back to the same value: when it contains
+// something that reads as a character reference, or the quote in use.
+func escapeConstantAttributeValue(value, quote string) string {
+	if html.UnescapeString(value) == value && !strings.Contains(value, quote) {
+		return value
+	}
+	quoteRef := "&quot;"
+	if quote == `'` {
+		quoteRef = "&#39;"
+	}
+	return strings.NewReplacer("&", "&amp;", quote, quoteRef).Replace(value)
 }
 
 func (ca ConstantAttribute) Write(w io.Writer, indent int) error {
